@@ -319,6 +319,12 @@ def run(ctx, rep):
             if gw is not None:
                 fail(rc, ctx, f, f.node, f"numeric field {field!r} can capture {gw[1]!r} (line {gw[0]!r}): int() is not total on it", witness=gw[0])
     check_pairwise_disjoint(ctx, rx_, impls, f, "metadata")
+    # ---- Player2 enumeration values are the file format's words
+    p2c = ctx.cls(P2)
+    p2t = ctx.fold.enum_table(p2c)
+    ra.inst(f"Player2Instrument values: {p2t.primaries()}")
+    if dict(p2t.primaries()) != {"BASS": "bass", "RHYTHM": "rhythm"} or p2t.aliases():
+        fail(ra, ctx, p2c, p2c.node, f"Player2Instrument must be BASS='bass', RHYTHM='rhythm' (the words written in the file); found {p2t.rows}")
     # ---- the [Song] lines reach the scan verbatim
     from .chartrules import ChartRules
     rr = rep.rule("route", "Metadata.from_chart_lines receives the [Song] section's own lines exactly as they are in the file "
